@@ -256,6 +256,22 @@ def run_pair(case):
         # ---------------------------------------------------------------- re-pair on the same connection must not hang
         if case.get('repair'):
             n_r0 = len(events['R'])
+            # while the second pairing starts encryption: which key does the central use, and which key would the peripheral's host
+            # hand to its controller for that EDIV / Rand (the virtual controller never asks, so the request is injected)
+            from bumble import hci as _hci
+            cap2 = {'cmd': None, 'reply': None}
+
+            def mon2(chan, direction, data):
+                if direction != 'tx' or not data or data[0] != 0x01:
+                    return
+                op = struct.unpack_from('<H', data, 1)[0]
+                if chan == 'N0.h2c' and op == 0x2019 and cap2['cmd'] is None:
+                    cap2['cmd'] = bytes(data[4:])
+                    _h, rand, ediv, _k = struct.unpack_from('<H8sH16s', cap2['cmd'], 0)
+                    world[1].c2h.inject(bytes(_hci.HCI_LE_Long_Term_Key_Request_Event(connection_handle=c1.handle, random_number=rand, encryption_diversifier=ediv)))
+                elif chan == 'N1.h2c' and op in (0x201A, 0x201B) and cap2['reply'] is None:
+                    cap2['reply'] = (op, bytes(data[4:]))
+            sim.monitors.append(mon2)
             t2 = sim.loop.create_task(c0.pair())
             st2 = sim.loop.drive(t2.done, vt_budget=60.0, step_budget=400_000)
             if st2 != 'done':
@@ -278,6 +294,17 @@ def run_pair(case):
                                        f'initiator {"succeeded" if ok_i else "failed: " + repr(t2.exception())}, responder {"succeeded" if ok_r else "failed"}')
                 elif ok_i:
                     sim.probe('second_pairing_on_same_connection_succeeded')
+                    # Secure Connections only: a legacy pairing encrypts with the STK first, and the injected request cannot be made to
+                    # arrive before the virtual controller reports the link encrypted (after which the session answers with its LTK)
+                    if sc and cap2['cmd'] is not None and cap2['reply'] is not None:
+                        ltk = struct.unpack_from('<H8sH16s', cap2['cmd'], 0)[3]
+                        op, params = cap2['reply']
+                        sim.probe('second_pairing_key_agreement_checked')
+                        if op == 0x201B or params[2:18] != ltk:
+                            sim.violation_once('repair-key', f'second-pairing-keys-differ:{"sc" if sc else "legacy"}',
+                                               f'the central starts encryption with {ltk.hex()[:12]}.., the peripheral host answers {"no key" if op == 0x201B else params[2:18].hex()[:12] + ".."}')
+            if mon2 in sim.monitors:
+                sim.monitors.remove(mon2)
         # ---------------------------------------------------------------- reconnection: same key on both sides
         if case['reconnect'] and A['bonding'] and B['bonding'] and not case.get('repair'):
             central_has_key = sc or bool(A['resp_dist'] & B['resp_dist'] & 1)
